@@ -14,10 +14,10 @@ import (
 
 // Tolerance markers produced by the reference.
 type (
-	setList    []any                // list whose order is not demanded
-	descStr    struct{ s *string }  // description: null and "" identified
+	setList    []any                   // list whose order is not demanded
+	descStr    struct{ s *string }     // description: null and "" identified
 	defaultLit struct{ s *gast.Value } // default value: compared as a parsed value
-	naList     struct{}             // member that does not apply to this kind: null or []
+	naList     struct{}                // member that does not apply to this kind: null or []
 )
 
 // meta nodes
@@ -593,6 +593,38 @@ func plain(v any) any {
 		return "<literal> " + x.s.String()
 	case naList:
 		return "<null or []>"
+	}
+	return v
+}
+
+// plainJSON turns a reference answer into the JSON an exact implementation would send
+// (default values as literal text, not-applicable members as null).
+func plainJSON(v any) any {
+	switch x := v.(type) {
+	case setList:
+		out := make([]any, len(x))
+		for i, it := range x {
+			out[i] = plainJSON(it)
+		}
+		return out
+	case map[string]any:
+		out := map[string]any{}
+		for k, it := range x {
+			out[k] = plainJSON(it)
+		}
+		return out
+	case descStr:
+		if x.s == nil || *x.s == "" {
+			return nil
+		}
+		return *x.s
+	case defaultLit:
+		if x.s == nil {
+			return nil
+		}
+		return x.s.String()
+	case naList:
+		return nil
 	}
 	return v
 }
